@@ -218,6 +218,9 @@ static void ProcessFile(char const* FileName, LongWord Offset) {
 
         else if (InpHeader == FileHeaderDataRec) {
             Gran = InpGran;
+            if (Gran == 0) {
+                FormatError(FileName, getmessage(Num_FormatInvRecordHeaderMsg));
+            }
 
             if ((ActFormat = DestFormat) == eHexFormatDefault) {
                 FoundDscr = FindFamilyById(InpCPU);
@@ -779,6 +782,9 @@ static void MeasureFile(char const* FileName, LongWord Offset) {
         ReadRecordHeader(&Header, &InpCPU, &InpSegment, &Gran, FileName, f);
 
         if (Header == FileHeaderDataRec) {
+            if (Gran == 0) {
+                FormatError(FileName, getmessage(Num_FormatInvRecordHeaderMsg));
+            }
             if (!Read4(f, &Adr)) {
                 ChkIO(FileName);
             }
